@@ -37,7 +37,9 @@ def string_is_geometry(sequence: pd.Series, state: dict) -> bool:
 def string_to_geometry(series: pd.Series, state: dict) -> pd.Series:
     from shapely import wkt
 
-    return pd.Series([wkt.loads(value) for value in series])
+    return pd.Series(
+        [wkt.loads(value) for value in series], index=series.index, name=series.name
+    )
 
 
 @Geometry.contains_op.register
